@@ -9,7 +9,7 @@
  "unwindset": ["keyword_wrapped_for_contract_checking.0:8", "strcmp.0:18"],
  "cbmc_flags": ["--drop-unused-functions"],
  "timeout": 200,
- "expects": ["postcondition", "assigns", "frees"],
+ "expects": ["postcondition", "assigns"],
  "assumes": ["strcmp/free are CBMC's library models",
              "the C23 keyword _BitInt is excluded here and stated separately in PP.keyword.bitint (a finding on the pinned tree)"]
 }
@@ -20,7 +20,7 @@
  * C11 6.4.2.1p4 / 6.4.1: an identifier token whose spelling is a keyword is that keyword (translation phase 7).
  * For EVERY spelling in the oracle's list the token kind becomes the kind of the standard's keyword of that name
  * (all spellings of one keyword give one kind); for EVERY other string the token stays an identifier and keeps its
- * spelling.  Keyword tokens carry no spelling (tokstr[kind] gives it): lit is released and reset.
+ * spelling.  Keyword tokens carry no spelling (tokstr[kind] gives it): lit is reset; the storage is NOT released: the token is a copy and the spelling may belong to a macro replacement list (PP.next), so the contract has no frees clause.
  */
 #define POST_KW(X) \
 	X(IMP(!lex_is_bitint(g_b), tok->kind == lex_keyword_kind(g_b))) \
@@ -32,7 +32,6 @@
 static void keyword_contract(struct token *tok)
 REQUIRES(PRE_KW)
 __CPROVER_assigns(tok->kind, tok->lit)
-__CPROVER_frees(tok->lit)
 ENSURES(POST_KW);
 
 void
